@@ -117,3 +117,29 @@ func MayReachExitWithout(from ssa.Instruction, hit func(ssa.Instruction) bool) (
 	r := walk(from.Block(), instrIndex(from)+1)
 	return r, exit
 }
+
+// storedInto lists the values stored into addr or into any field/element address derived from it.
+func storedInto(addr ssa.Value, depth int) []ssa.Value {
+	var out []ssa.Value
+	refs := addr.Referrers()
+	if refs == nil || depth < 0 {
+		return nil
+	}
+	for _, r := range *refs {
+		switch x := r.(type) {
+		case *ssa.Store:
+			if x.Addr == addr {
+				out = append(out, x.Val)
+			}
+		case *ssa.FieldAddr:
+			if x.X == addr {
+				out = append(out, storedInto(x, depth-1)...)
+			}
+		case *ssa.IndexAddr:
+			if x.X == addr {
+				out = append(out, storedInto(x, depth-1)...)
+			}
+		}
+	}
+	return out
+}
